@@ -214,6 +214,9 @@ func zooSub(c Case, j int, env *Env, prop string) (val interface{}, feats []stri
 func zooCount(c Case) int {
 	switch c.Kind {
 	case "lit":
+		if c.N > 1 {
+			return c.N // a witness that fails only on some runs is attempted N times
+		}
 		return 1
 	case "zero":
 		return 2
